@@ -833,9 +833,11 @@ func TestC07_SshdFramed(t *testing.T) { RunProp(t, "c07.sshd_framed", genC07, ex
 // real named pipe, with a generated partition into writes.
 
 type c07FifoCase struct {
-	Msgs   []sshdMsg `json:"msgs"`
-	Pads   []int     `json:"pads"`
-	Chunks []int     `json:"chunks"`
+	Msgs    []sshdMsg `json:"msgs"`
+	Pads    []int     `json:"pads"`
+	Chunks  []int     `json:"chunks"`
+	PauseAt int       `json:"pause_at"` // index of the write after which the writer pauses (-1 none)
+	PauseMs int       `json:"pause_ms"`
 }
 
 func genC07Fifo(rt *rapid.T) c07FifoCase {
@@ -850,7 +852,13 @@ func genC07Fifo(rt *rapid.T) c07FifoCase {
 		total += len(m.PID) + p + len(m.Msg) + 1
 	}
 	left := total
+	c.PauseAt = -1
 	max := pick(rt, "maxchunk", []int{1, 5, 64, 700, 1 << 16})
+	if rapid.IntRange(0, 399).Draw(rt, "longpause") == 0 {
+		// a writer that stalls in the middle of a record for longer than any polling interval
+		max = 40
+		c.PauseMs = pick(rt, "pausems", []int{1100, 2100})
+	}
 	for left > 0 {
 		k := rapid.IntRange(1, max).Draw(rt, "chunk")
 		if k > left {
@@ -862,6 +870,9 @@ func genC07Fifo(rt *rapid.T) c07FifoCase {
 			c.Chunks = append(c.Chunks, left)
 			break
 		}
+	}
+	if c.PauseMs > 0 && len(c.Chunks) > 1 {
+		c.PauseAt = rapid.IntRange(0, len(c.Chunks)-2).Draw(rt, "pauseat")
 	}
 	return c
 }
@@ -897,7 +908,7 @@ func execC07Fifo(c c07FifoCase) Outcome {
 		panic(&infraError{err.Error()})
 	}
 	off := 0
-	for _, k := range c.Chunks {
+	for ci, k := range c.Chunks {
 		if off+k > len(stream) {
 			k = len(stream) - off
 		}
@@ -908,6 +919,9 @@ func execC07Fifo(c c07FifoCase) Outcome {
 			break
 		}
 		off += k
+		if ci == c.PauseAt && c.PauseMs > 0 {
+			time.Sleep(time.Duration(c.PauseMs) * time.Millisecond)
+		}
 	}
 	if off < len(stream) {
 		_, _ = w.Write(stream[off:])
